@@ -50,7 +50,7 @@ type pState struct {
 	delayRC          <-chan struct{}
 	manualRC         <-chan interface{}
 	shutdownNotifier chan<- interface{}
-	queueBars        map[*Bar]*Bar
+	queueBars        map[*Bar][]*Bar
 	output           io.Writer
 	debugOut         io.Writer
 	uwg              *sync.WaitGroup
@@ -77,7 +77,7 @@ func NewWithContext(ctx context.Context, options ...ContainerOption) *Progress {
 		renderReq:   make(chan time.Time),
 		popPriority: math.MinInt32,
 		refreshRate: defaultRefreshRate,
-		queueBars:   make(map[*Bar]*Bar),
+		queueBars:   make(map[*Bar][]*Bar),
 		output:      os.Stdout,
 		debugOut:    io.Discard,
 	}
@@ -164,9 +164,13 @@ func (p *Progress) Add(total int64, filler BarFiller, options ...BarOption) (*Ba
 		bs := ps.makeBarState(total, filler, options...)
 		bar := newBar(ps.ctx, p, bs)
 		verifhook.Event(verifhook.CtAdd, bar, bs.id, bs.priority, total, bs.waitBar, bs.rmOnComplete, bs.noPop, bs.triggerComplete)
-		if bs.waitBar != nil {
-			ps.queueBars[bs.waitBar] = bar
+		if wb := bs.waitBar; wb != nil && !wb.relieved {
+			ps.queueBars[wb] = append(ps.queueBars[wb], bar)
 		} else {
+			if wb != nil {
+				// nothing to wait for, wb's final state is already flushed
+				bar.priority = wb.lastPriority
+			}
 			ps.hm.push(bar, true)
 		}
 		ps.idCount++
@@ -426,10 +430,13 @@ func (s *pState) flush(cw *cwriter.Writer, height int, iter <-chan *Bar) error {
 		switch frame.shutdown {
 		case 1:
 			b.cancel()
-			if qb, ok := s.queueBars[b]; ok {
+			b.relieved, b.lastPriority = true, b.priority
+			if qbs, ok := s.queueBars[b]; ok {
 				delete(s.queueBars, b)
-				qb.priority = b.priority
-				pushes = append(pushes, pushData{qb, true})
+				for _, qb := range qbs {
+					qb.priority = b.priority
+					pushes = append(pushes, pushData{qb, true})
+				}
 			} else if s.popCompleted && !frame.noPop {
 				b.priority = s.popPriority
 				s.popPriority++
